@@ -18,6 +18,8 @@ var verifC02Pool = []string{
 	"/ab[/x]", "/a[.html]", "/a/b[/c[/d]]",
 	// variables that can span several segments without saying so with '.' or '/' in their regex
 	`/f/{p:[^?#]+}`, `/w/{t:\S+}`, `/{ns:\D+}/{id:\d+}`, `/n/{v:\d.*\d}`,
+	// variable names that differ from a global variable's only in case are ordinary variables
+	"/f/{All}", "/i/{Num}",
 	// custom regexes made of several non-capturing groups (sequence, alternation)
 	`/i/{file:(?:[a-z]+)\.(?:jpg|png)}`, `/v/{ver:(?:v\d)|(?:new)}/d`,
 }
